@@ -41,8 +41,8 @@ func runC04(c *rt.C) {
 		c04DeltaRefresh(c)
 		return
 	}
-	if c.Index == 6+len(slMicros)+13 || c.Index == 6+len(slMicros)+14 {
-		c04TwoFlushers(c, mem)
+	if c.Index >= 6+len(slMicros)+13 && c.Index <= 6+len(slMicros)+16 {
+		c04TwoFlushers(c, mem, c.Index >= 6+len(slMicros)+15)
 		return
 	}
 	if c.Index >= 6+len(slMicros)+4 && c.Index < 6+len(slMicros)+12 {
@@ -109,7 +109,7 @@ func init() {
 		ID: "C04", Level: "exploration",
 		Technique: "sanitizer-style runtime monitoring: MMU-enforced page-guard allocator and poison/quarantine allocator passed through Config.UseMemoryMgmt, exact shadow live-set, 'freed while still linked' walk on every free, reachable ⊆ live-set at quiescent checkpoints, held-node re-reads",
 		Rule: "user-managed memory only, alternating pageguard / poison. Two of three cases run the ownership engine (2-8 writers, 4-64 keys, 2-6 scanner goroutines with refresh rates {0,1,2,7} that hold nodes and re-read them, concurrent Visitors, snapshot churn closed in random/newest-first/oldest-last order from concurrent goroutines, GC() storms, hook and allocator perturbation); every third case runs the contention engine (2-8 writers on 1-8 shared keys, same-epoch and cross-epoch deletes of one node by several writers). " +
-			"Cases 33-34 are the two-flusher schedule (an iterator parked after loading the pointer to a deleted item b holds a token of session S1; one collection worker flushes an empty list and is parked right after its session swap, a second one unlinks b and flushes it into the younger session; when the iterator resumes and steps onto b, b must still be a live block). Case 32 is the delta-backup refresh schedule (StoreToDisk with delta interleaving scans through a placeholder snapshot, so only the visitor's token protects the items; the visitor is parked inside Iterator.Refresh after dropping its token while its cursor item is deleted, collected and released; the restored backup must still be exact). Cases 24-31 park an accessor (Writer.GetNode, snapshot Iterator.Seek, Writer.Put2, Writer.Delete) inside the user-supplied key comparator right after it loaded a successor pointer, delete that successor (a current-epoch item, flushed at once) from another writer, and resume: the accessor must not touch released memory (hook-free). Cases 20-23 chain nodes in the library's NodeList and delete one of them in its own epoch (only that node may be released). Cases 0-5 are deterministic rendezvous schedules (insert of a tall node parked before linking level k ‖ delete+flush of that node), cases 6-19 enumerate the insert/delete micro-scenarios of C13 under the serialized controller in user-managed memory (after every schedule nothing released may still be linked). A fault inside the guard region, a double/invalid free, damaged poison or canary, a node freed while reachable from the head at any level, or a linked node that is not a live block is a violation. evaluations = blocks freed under guard; distinct = workload configuration / scan-age tuples",
+			"Cases 33-36 are the two-flusher schedule (35-36 with a writer's own delete of a current-epoch item as the second flusher; an iterator parked after loading the pointer to a deleted item b holds a token of session S1; one collection worker flushes an empty list and is parked right after its session swap, a second one unlinks b and flushes it into the younger session; when the iterator resumes and steps onto b, b must still be a live block). Case 32 is the delta-backup refresh schedule (StoreToDisk with delta interleaving scans through a placeholder snapshot, so only the visitor's token protects the items; the visitor is parked inside Iterator.Refresh after dropping its token while its cursor item is deleted, collected and released; the restored backup must still be exact). Cases 24-31 park an accessor (Writer.GetNode, snapshot Iterator.Seek, Writer.Put2, Writer.Delete) inside the user-supplied key comparator right after it loaded a successor pointer, delete that successor (a current-epoch item, flushed at once) from another writer, and resume: the accessor must not touch released memory (hook-free). Cases 20-23 chain nodes in the library's NodeList and delete one of them in its own epoch (only that node may be released). Cases 0-5 are deterministic rendezvous schedules (insert of a tall node parked before linking level k ‖ delete+flush of that node), cases 6-19 enumerate the insert/delete micro-scenarios of C13 under the serialized controller in user-managed memory (after every schedule nothing released may still be linked). A fault inside the guard region, a double/invalid free, damaged poison or canary, a node freed while reachable from the head at any level, or a linked node that is not a live block is a violation. evaluations = blocks freed under guard; distinct = workload configuration / scan-age tuples",
 		Assumptions: []string{"a use after free is observed only if it happens while the block is still under guard (pageguard never reuses addresses; poison quarantines for the life of the child process)", "node handles are used by the harness only while it holds an accessor token or the item is undeleted"},
 		Cases: func(t string) int {
 			if t == "thorough" {
@@ -534,22 +534,36 @@ func c04DeltaRefresh(c *rt.C) {
 // left: when the reader resumes and steps onto b, b must still be a live block. The verdict is taken at
 // the reader's own read (hook VpIterNextRead / the guard allocator), never from a clock; the pauses only
 // give a wrong ordering the time to release b.
-func c04TwoFlushers(c *rt.C, mem string) {
+//
+// sameEpoch: the second flusher is not a collection worker but a writer deleting an item born in the
+// current epoch (invisible to the reader's snapshot, physically in its way): Writer.Delete unlinks it
+// and flushes it from the caller's goroutine.
+func c04TwoFlushers(c *rt.C, mem string, sameEpoch bool) {
 	hits, trials := 0, 6
 	for trial := 0; trial < trials && !c.Failed(); trial++ {
 		db := OpenDB(DBOpt{Mem: mem})
 		w1 := db.N.NewWriter()
 		_ = db.N.NewWriter() // a second writer: a second collection worker
 		nodeA := w1.Put2([]byte("a"))
-		nodeB := w1.Put2([]byte("b"))
+		var nodeB *skiplist.Node
+		if !sameEpoch {
+			nodeB = w1.Put2([]byte("b"))
+		}
 		w1.Put([]byte("c"))
 		snap1, _ := db.N.NewSnapshot()
-		if !w1.Delete([]byte("b")) {
-			c.Inconclusive("delete of b failed")
-			return
+		var snap2 *nitro.Snapshot
+		if !sameEpoch {
+			if !w1.Delete([]byte("b")) {
+				c.Inconclusive("delete of b failed")
+				return
+			}
+			snap2, _ = db.N.NewSnapshot()
 		}
-		snap2, _ := db.N.NewSnapshot()
 		snap3, _ := db.N.NewSnapshot()
+		if sameEpoch {
+			nodeB = w1.Put2([]byte("b")) // born after snap3
+		}
+		delDone := make(chan bool, 1)
 		var readerOnce, flushes, onFreed int32
 		readerParked, readerGo := make(chan struct{}), make(chan struct{})
 		f1Parked, f1Go := make(chan struct{}), make(chan struct{})
@@ -598,7 +612,11 @@ func c04TwoFlushers(c *rt.C, mem string) {
 		freedUnderReader := false
 		if reached {
 			hits++
-			snap2.Close() // worker Y: unlink b, flush [b]
+			if sameEpoch {
+				go func() { delDone <- w1.Delete([]byte("b")) }() // the writer itself unlinks b and flushes [b]
+			} else {
+				snap2.Close() // worker Y: unlink b, flush [b]
+			}
 			for i := 0; i < 150 && !freedUnderReader; i++ {
 				freedUnderReader = db.A.WasFreed(unsafe.Pointer(nodeB))
 				time.Sleep(2 * time.Millisecond)
@@ -614,9 +632,20 @@ func c04TwoFlushers(c *rt.C, mem string) {
 		}
 		close(readerGo)
 		r := <-done
+		if sameEpoch && reached {
+			select {
+			case ok := <-delDone:
+				if !ok {
+					c.Inconclusive("same-epoch delete of b failed")
+				}
+			case <-time.After(20 * time.Second):
+				c.Inconclusive("same-epoch delete of b did not return")
+				return
+			}
+		}
 		skiplist.VerifSetHook(nil)
 		c.Evals(1)
-		witness := map[string]interface{}{"mem": mem, "trial": trial, "b_released_while_reader_parked": freedUnderReader, "reader_saw": seen}
+		witness := map[string]interface{}{"mem": mem, "trial": trial, "second_flusher": map[bool]string{false: "collection worker", true: "Writer.Delete of a current-epoch item"}[sameEpoch], "b_released_while_reader_parked": freedUnderReader, "reader_saw": seen}
 		if r.fault != nil {
 			c.Violate("use-after-free/two-flushers", fmt.Sprintf("an iterator that entered before b was unlinked (parked after loading the pointer to b) touched released memory when it resumed; the flush of the younger session [b] overtook the flush of the older session that still contains the iterator: %v", r.fault), witness)
 			return
@@ -637,7 +666,7 @@ func c04TwoFlushers(c *rt.C, mem string) {
 			c.Inconclusive(fmt.Sprintf("C07's oracle: %d blocks live after Close", n))
 		}
 	}
-	c.Sig("two-flushers/mem=%s/reached=%v", mem, hits > 0)
+	c.Sig("two-flushers/mem=%s/same-epoch=%v/reached=%v", mem, sameEpoch, hits > 0)
 	c.Count("two_flusher_trials_reaching_the_window", int64(hits))
 	if hits == 0 {
 		c.Inconclusive("the two-flusher window was never reached")
